@@ -148,6 +148,41 @@ pub fn run(thorough: bool) -> Vec<Part> {
         |i| format!("route table #{}", i),
     );
     t.record(&mut part, "route-tables");
+    // long paths: every path length 1..300 (registered together with the path one byte shorter
+    // and one byte longer), all three methods, both request forms
+    {
+        let mut t = crate::par::Tally::default();
+        for len in 2..=300usize {
+            for (mi, m) in METHODS.iter().enumerate() {
+                let mk = |n: usize| -> String { format!("/{}", "x".repeat(n - 1)) };
+                let mut router: HttpRoutes<Log> = HttpRoutes::new("router-id".to_string(), String::new());
+                for (i, n) in [len - 1, len, len + 1].iter().enumerate() {
+                    let _ = router.add_route(*m, mk(*n), Box::new(H(i)));
+                }
+                for (i, n) in [len - 1, len, len + 1, len + 2].iter().enumerate() {
+                    for absolute in [false, true] {
+                        let uri = if absolute { format!("http://h{}", mk(*n)) } else { mk(*n) };
+                        let bytes = format!("{} {} HTTP/1.1\r\n\r\n", mname(*m), uri).into_bytes();
+                        let req = match Request::try_from(&bytes, None) {
+                            Ok(r) => r,
+                            Err(_) => continue,
+                        };
+                        let log = Log(Mutex::new(vec![]));
+                        let _ = router.handle_http_request(&req, &log);
+                        let calls = log.0.lock().unwrap().clone();
+                        let want: Vec<usize> = if i < 3 { vec![i] } else { vec![] };
+                        t.evals += 1;
+                        t.nontrivial += 1;
+                        if calls != want {
+                            t.violate("dispatch", format!("{} request for a path of {} bytes (routes registered for {} / {} / {} bytes): handlers invoked {:?}, expected {:?}", mname(*m), n, len - 1, len, len + 1, calls, want), json!({"engine": "none", "len": n, "method": mi}));
+                        }
+                    }
+                }
+            }
+        }
+        t.sample(json!({"long_paths": "lengths 2..300 x 3 methods x origin/absolute form"}));
+        t.record(&mut part, "long-paths");
+    }
     part.set("route_tables", json!(total_all));
     part.set("rule", json!("every (prefix, registration sequence) x every request; evaluations count add_route calls and dispatches; non-trivial = the request matches a registered (method, prefix+path)"));
     part.set("exhaustive", json!(true));
